@@ -178,6 +178,17 @@ def float_part(L, rng, n):
         L.log("fiboSphere returns unit vectors", "samplers", float(np.abs(np.linalg.norm(fs, axis=1) - 1).max()) if fs.size else float("inf"),
               1e-8, {"n": npts})
         L.log("fiboSphere returns the requested count", "samplers", 0.0 if fs.shape == (npts, 3) else float("inf"), 1.0, {"n": npts})
+        # every call returns unit vectors - also the call after a caller scaled the previous result in place
+        first = fsr.fiboSphere(npts)
+        if isinstance(first, np.ndarray) and first.size and first.flags.writeable:
+            first *= 3.5
+            again = np.asarray(fsr.fiboSphere(npts), dtype=float)
+            L.log("fiboSphere returns unit vectors", "samplers|repeated", float(np.abs(np.linalg.norm(again, axis=1) - 1).max()), 1e-8, {"n": npts})
+        firstu = fsr.unitSphere(npts)
+        if isinstance(firstu, np.ndarray) and firstu.size and firstu.flags.writeable:
+            firstu *= 3.5
+            againu = np.asarray(fsr.unitSphere(npts), dtype=float)
+            L.log("unitSphere returns unit vectors", "samplers|repeated", float(np.abs(np.linalg.norm(againu, axis=1) - 1).max()), 1e-8, {"n": npts})
         us = np.asarray(fsr.unitSphere(npts), dtype=float)
         L.log("unitSphere returns unit vectors", "samplers", float(np.abs(np.linalg.norm(us, axis=1) - 1).max()) if us.size else float("inf"),
               1e-8, {"n": npts})
